@@ -782,10 +782,20 @@ func TestVerifC04(t *testing.T) {
 	if v := vEnvInt("VERIF_C04_NRSV", -1); v >= 0 {
 		nRsv = v
 	}
+	// reservation states stream (the very last cases), exhaustive in both tiers: ONE gang of min 2 (a group of its own,
+	// strict) whose member 0 is a Reservation, members 1 and 2 ordinary pods; match policy (3) x path (PodGroup / pod
+	// annotations / lightweight labels) x the state the Reservation is ADDED in (requested node y/n x status.nodeName y/n x
+	// active / succeeded / failed) x the state a later UPDATE shows (status.nodeName y/n x active / succeeded / failed):
+	// add, member 1 arrives and comes to Permit (+ bind or stays parked), update, member 2 arrives and comes to Permit,
+	// then the Reservation's own scheduling cycle if it still needs one.
+	nRsvX := 3 * 3 * 12 * 6
+	if vEnvInt("VERIF_C04_NOEXH", 0) != 0 {
+		nRsvX = 0
+	}
 	resBase := n + nExh + nConc + nShp
 	wexhBase := resBase + nRes + nWired + nRace
 	rsvBase := wexhBase + nWexh
-	for idx := 0; idx < rsvBase+nRsv; idx++ {
+	for idx := 0; idx < rsvBase+nRsv+nRsvX; idx++ {
 		r := h.Begin(idx)
 		if r == nil {
 			continue
@@ -805,6 +815,7 @@ func TestVerifC04(t *testing.T) {
 		}
 		wexh := idx >= wexhBase && idx < rsvBase
 		rsvS := idx >= rsvBase
+		rsvX := idx >= rsvBase+nRsv
 		if rsvS {
 			wired = idx%3 != 0
 		}
@@ -817,7 +828,7 @@ func TestVerifC04(t *testing.T) {
 		if exh || shp {
 			nG = 2
 		}
-		if res {
+		if res || rsvX {
 			nG = 1
 		}
 		// the scheduler's configuration: CoschedulingArgs.DefaultMatchPolicy (3 = the empty string)
@@ -962,7 +973,22 @@ func TestVerifC04(t *testing.T) {
 			}
 			h.Tag("resolution-exhaustive")
 		}
-		if rsvS {
+		rsvXA, rsvXB := 0, 0 // reservation states stream: the state added / the state updated to (req*6 + sched*3 + phase)
+		if rsvX {
+			code := idx - (rsvBase + nRsv)
+			pol := code % 3
+			code /= 3
+			path := code % 3
+			code /= 3
+			rsvXA = code % 12
+			code /= 12
+			rsvXB = code % 6
+			cfgs[0], ways[0] = c04Cfg{min: 2, pol: pol, mode: 1, gshape: 0}, path
+			groupOf[0] = []int{0}
+			pods = []*c04PodSt{{id: 0, g: 0, rsv: true, rsvReq: rsvXA >= 6, rsvOwn: r.Chance(1, 4)}, {id: 1, g: 0}, {id: 2, g: 0}}
+			h.Tag("reservation-states-exhaustive")
+		}
+		if rsvS && !rsvX {
 			h.Tag("reservation-members")
 			k := 0
 			for _, ps := range pods {
@@ -1452,11 +1478,15 @@ func TestVerifC04(t *testing.T) {
 			h.Tag("op:pgdel")
 			finish(0, nil, 9, fwB, pan)
 		}
+		forcePhase := 0 // reservation states stream: the phase of a terminated Reservation is given, not drawn
 		doPodEvt := func(ps *c04PodSt, update bool, node bool, term bool) {
 			pod, tail := mkPod(ps, nodeOf(node))
 			rsvPhase := 0
 			if term {
 				rsvPhase = 1 + r.Intn(2)
+				if forcePhase != 0 {
+					rsvPhase = forcePhase
+				}
 				pod.Status.Phase = []corev1.PodPhase{corev1.PodSucceeded, corev1.PodFailed}[rsvPhase-1]
 			}
 			if ps.rsv {
@@ -1818,6 +1848,35 @@ func TestVerifC04(t *testing.T) {
 				doPostBind(pods[2])
 			case 1, 3:
 				doUnreserve(pods[2])
+			}
+		}
+		if rsvX {
+			nOps, scripted = 0, false
+			if ways[0] == 0 {
+				doPGAdd(0, false)
+			}
+			resolve := func(ps *c04PodSt) {
+				if ps.flight == 2 {
+					doPostBind(ps)
+				}
+			}
+			forcePhase = rsvXA % 3
+			doPodEvt(pods[0], false, rsvXA%6 >= 3, forcePhase != 0)
+			doPodEvt(pods[1], false, false, false)
+			doPermit(pods[1])
+			resolve(pods[1])
+			forcePhase = rsvXB % 3
+			doPodEvt(pods[0], true, rsvXB >= 3, forcePhase != 0)
+			forcePhase = 0
+			doPodEvt(pods[2], false, false, false)
+			doPermit(pods[2])
+			resolve(pods[1])
+			resolve(pods[2])
+			if !pods[0].bound && pods[0].flight == 0 {
+				doPermit(pods[0]) // the Reservation's own scheduling cycle
+				for _, ps := range pods {
+					resolve(ps)
+				}
 			}
 		}
 		if exh {
@@ -2466,5 +2525,7 @@ func TestVerifC04(t *testing.T) {
 			"before each of 8-40 brand-new gang ids per round, 2-5 rounds, oracle at the barrier (every added pod in exactly one set of the CACHED gang, gang initialised from its PodGroup); non-trivial there = all rounds ran; ", nRace) +
 		fmt.Sprintf("plus a reservation stream of %d cases: the same histories with one or more members of the gangs being Reservations (gang labels / annotations in spec.template or on the object), their events through the "+
 			"reservation -> pod adapter (2 of 3 cases the handler NewPodGroupManager registered on the captured Reservation informer, else NewReservationToPodEventHandler around the GangCache's pod handlers), shown pending / pending with a "+
-			"requested node (spec.template.spec.nodeName) / scheduled (status.nodeName, Available or Waiting) / succeeded / failed, deleted as object / tombstone / ignored shape, scheduling calls on the reserve pod (NewReservePod)", nRsv))
+			"requested node (spec.template.spec.nodeName) / scheduled (status.nodeName, Available or Waiting) / succeeded / failed, deleted as object / tombstone / ignored shape, scheduling calls on the reserve pod (NewReservePod); ", nRsv) +
+		fmt.Sprintf("plus %d cases exhausting match policy (3) x path (3) x the state a Reservation member of a gang of min 2 is added in (requested node x status.nodeName x active / succeeded / failed) x the state "+
+			"a later update shows (status.nodeName x active / succeeded / failed), two ordinary members coming to Permit in between", nRsvX))
 }
